@@ -41,6 +41,19 @@ git -C /repo worktree prune
 for s in $ids; do
 	r=$(cat $W/$s.res 2>/dev/null)
 	case "$r" in
+		*exit=1|*skipped*) ;;
+		*)
+			# one sequential retry: under load a solver may time out on the failing obligation's neighbours
+			wt=$W/wt-$s
+			if git -C /repo worktree add -q --detach $wt HEAD 2>/dev/null && git -C $wt apply /verif/seeded/$s/patch.diff 2>/dev/null; then
+				/verif/bin/jv check --repo $wt --property $id --no-evidence > $W/$s.out 2>&1
+				echo "$s exit=$?" > $W/$s.res
+			fi
+			git -C /repo worktree remove --force $wt 2>/dev/null
+			rm -rf $wt
+			r=$(cat $W/$s.res 2>/dev/null);;
+	esac
+	case "$r" in
 		*exit=1) echo "selftest: $s detected" >&2;;
 		*skipped*) echo "selftest: $r" >&2;;
 		*) echo "SELFTEST-REGRESSION property=$id seeded=$s ($r): a corpus change that used to be reported is not reported any more"; rc=2;;
